@@ -54,6 +54,9 @@ type patchCase struct {
 	why    string
 	input  any // value entering the transform chain (if known)
 	start  any // value entering the chain, for attribution of deviations
+
+	wildExpect    any // documented value for every existing expansion of a wildcard target path
+	hasWildExpect bool
 }
 
 func typeLabel(t v1.PatchType) string {
@@ -185,6 +188,8 @@ func genPatch(r *rand.Rand, typ v1.PatchType, xr, cd map[string]any) patchCase {
 				pc.pred, pc.why = pChainErr, res.why
 			case res.k == rOK && !hasMO && pc.to.settable && jsonSafe(res.val):
 				pc.pred, pc.expect = pValue, res.val
+			case res.k == rOK && !hasMO && pc.to.wild && pc.to.class == "wildcard" && jsonSafe(res.val):
+				pc.wildExpect, pc.hasWildExpect = res.val, true
 			}
 		}
 	case v1.PatchTypeCombineFromComposite, v1.PatchTypeCombineToComposite:
@@ -644,9 +649,49 @@ func runPatchCase(c *kit.Ctx, name string, r *rand.Rand, st stats) {
 			}
 		}
 	}
-	// wildcard target: every expansion that already existed holds the value
-	if pc.to.wild && o1.err == nil && !filtered && len(pc.froms) > 0 && allFound(pc.froms) {
-		st.inc("patch_wildcard_applied")
+	// wildcard target: "patches the value into each of the resulting fields" - every expansion
+	// that existed before the call holds the value afterwards
+	if pc.hasWildExpect && o1.err == nil && !filtered {
+		wi := -1
+		for i, sg := range pc.to.segs {
+			if sg.wild {
+				wi = i
+			}
+		}
+		container, cst := walk(dst0, pc.to.segs[:wi])
+		var children []seg
+		if cst == stFound {
+			switch t := container.(type) {
+			case []any:
+				for i := range t {
+					children = append(children, seg{isIdx: true, idx: i})
+				}
+			case map[string]any:
+				for _, k := range sortedKeys(t) {
+					children = append(children, seg{field: k})
+				}
+			}
+		}
+		for _, ch := range children {
+			full := append(append(append([]seg{}, pc.to.segs[:wi]...), ch), pc.to.segs[wi+1:]...)
+			if _, est := walk(dst0, full); est != stFound {
+				continue
+			}
+			st.inc("patch_checked_wildcard_expansion")
+			got, gst := walk(dst1, full)
+			if gst != stFound || !sameJSON(pc.wildExpect, got) {
+				w := witness()
+				w["expansion"] = render(rand.New(rand.NewPCG(1, 1)), full)
+				w["got"] = fmt.Sprintf("%#v (%s)", got, gst)
+				w["expected"] = fmt.Sprintf("%#v", pc.wildExpect)
+				if k, wh := attribute(pc.p.Transforms, pc.start); k != "" {
+					c.Violate(k, name, "observed through a wildcard "+pc.label+" patch: "+wh, w)
+				} else {
+					c.Violate("patch:"+pc.label+"-wildcard-expansion-wrong-value", name, "an existing expansion of the wildcard target path does not hold the documented value", w)
+				}
+				break
+			}
+		}
 	}
 }
 
